@@ -95,7 +95,13 @@ fn make_case(ctx: &Ctx, i: u64) -> Option<Case> {
             foreign: false,
         })
     } else {
-        let l = logical_for(ctx, "c20.logical", i);
+        let l = if i % 160 == 43 {
+            // tiles above 2^24 bytes whose length is no multiple of any block size, with other tiles stored behind them
+            let len = (1 << 24) + 1 + rng.usize(0, 600_000);
+            gen::gen_huge_tiles(&mut rng, R::CODECS[((i / 2) % 4) as usize], len)
+        } else {
+            logical_for(ctx, "c20.logical", i)
+        };
         let bytes = write_sync(l.build()).ok()?;
         let v = R::validate(&bytes, &crate::checks::common::strict_opts()).ok()?;
         Some(Case {
